@@ -17,9 +17,12 @@ def expr_cases(seed, n):
         g = G.Gen(rnd, tables=T14, joins=False, feat=FEAT14)
         nrows = lens[i % len(lens)]
         rows = []
+        # NULL density per column and table: none at all (the kernels' all-valid fast paths), sparse, half, all
+        dens = [rnd.choice([0.0, 0.0, 0.15, 0.5, 1.0]) for _ in range(3)]
+        pick = lambda d, pool: None if rnd.random() < d else rnd.choice(pool)
         for r in range(nrows):
-            rows.append([r, rnd.choice([None, None, 0, 1, 2, 3, -1, -3, 7]), rnd.choice([None, 0, 1, 2, 3, -2, 5]),
-                         rnd.choice([None, "", "a", "b", "ab", "ba", "abc"])])
+            rows.append([r, pick(dens[0], [0, 1, 2, 3, -1, -3, 7]), pick(dens[1], [0, 1, 2, 3, -2, 5]),
+                         pick(dens[2], ["", "a", "b", "ab", "ba", "abc"])])
         scope = [("x1", c, ty) for c, ty in T14["t1"] if c != "id"]
         sel = [(("col", "x1", "id", G.INT), "c1")]
         for k in range(3):
